@@ -109,7 +109,7 @@ pub fn run(tier: &str) -> i32 {
     rep.set_rule("every input of the host corpus (semantic struct cases; feature-interaction product for structs: shape x hint x 8 kind presets x 1-2 counterparts x 13-entry member menu incl. child/parent/repeat/as_type x ghosts x trait-instruction params vars/update/return/attributes x where_clause; for enums: variant shape x 9-entry variant menu x enum ghosts x default case; enum->primitive literal/pattern hosts) is expanded; for every ACCEPTED input the output must parse as a Rust file (syn 2 full) of impl items only, each of one of the six traits (path read structurally), with exactly one fn of the documented name and signature and `type Error` iff fallible. states = distinct inputs; non-trivial = accepted inputs");
     rep.assume("embedded expressions, types and patterns of the corpus are well-formed by construction; `parses` is judged by syn 2 (rustc judges the B-engine properties)");
     let caps = Caps::from_env(if tier == "quick" { 120.0 } else { 1200.0 });
-    corpus::for_each(tier, &caps, &rep, |space, choices, c| check_case("C17", space, choices, &c, &rep));
+    corpus::for_each(if tier == "quick" { "quick" } else { "mid" }, &caps, &rep, |space, choices, c| check_case("C17", space, choices, &c, &rep));
     // exotic but WELL-FORMED embedded types, patterns, expressions, attribute contents and where predicates (the forms of
     // C18's token-forms space that a real parser accepts in their syntactic category) in every hole that forwards them
     let st = crate::explore::explore(
